@@ -108,6 +108,26 @@ def worker(unit, emit):
             for script in scripts1[::p['opt_stride']]:
                 for s, d in inputs.concretise(x, script, rnd, k=1):
                     pairrec(x, xkind, s, d, kw)
+    # collision search over the whole corpus (not only the picked bases): the leading letters of every documented number
+    # overwritten by the module's own alphabetic constants and by the leading letters of the other documented numbers (country
+    # codes and their aliases); only the spellings whose compact form collides with the number's are replayed
+    heads = list(dict.fromkeys(lits + [b[:2] for b in corp if b[:2].isalpha() and b[:2].isascii()]))[:40]
+    ncoll = 0
+    for b in lib.distinct_compact(name, mod, corp)[:p['collide']]:
+        if not (b[:1].isalpha() and b.isascii()):
+            continue
+        cb = lib.call(mod.compact, b)
+        if cb['k'] != 'ret' or cb['t'] != 'str':
+            continue
+        for L in heads:
+            if len(L) >= len(b) or b.upper().startswith(L.upper()) or not b[:len(L)].isalpha():
+                continue
+            y = L + b[len(L):]
+            cy = lib.call(mod.compact, y)
+            if cy['k'] == 'ret' and cy['t'] == 'str' and cy['v'] == cb['v'] and ncoll < 200:
+                ncoll += 1
+                emit.count('collisions')
+                pairrec(b, 'valid', y, 'literal overwrite %r' % L, {})
     # corpus presentations against each other (documented spellings of the same number)
     pres = lib.pick(corp, p['pres'], rnd)
     for i, a in enumerate(pres):
@@ -123,7 +143,7 @@ def main():
     scripts1 = gen_scripts(chk, 'Gen_Decor1')
     scripts2 = gen_scripts(chk, 'Gen_Decor2R', simulate='num=%d' % (100 if quick else 2500), depth=3)
     p = {'seed': chk.seed, 'bases': 2 if quick else 15, 'near': 2 if quick else 6, 'k': 1 if quick else 3,
-         'opt_stride': 4 if quick else 1, 'pres': 20 if quick else 200}
+         'opt_stride': 4 if quick else 1, 'pres': 20 if quick else 200, 'collide': 150 if quick else 2000}
     units = [(name, scripts1, scripts2, p) for name, _ in lib.modules()]
     shards = chk.drive(units, worker)
     extra = run.merge_extra(shards)
@@ -135,7 +155,8 @@ def main():
                            'change; non-trivial = compact(x) == compact(y) observed; 1% of the other pairs are kept so that the antecedent '
                            'is also evaluated false',
                       extra={'modules_with_compact': extra.get('modules', 0), 'pairs_tried': extra.get('pairs', 0),
-                             'pairs_compact_differs': extra.get('pairs_compact_differs', 0)})
+                             'pairs_compact_differs': extra.get('pairs_compact_differs', 0),
+                             'corpus_collisions_replayed': extra.get('collisions', 0)})
 
 
 if __name__ == '__main__':
